@@ -160,6 +160,24 @@ example : (Header.make fOk).isSome = true ∧ Header.validRateQ fOk.q = true := 
 /-- a field outside its 32-bit range is refused by the writer, not stored wrapped -/
 example : Header.make { fOk with xl0 := 2147483648 } = none := by decide
 
+/-! ### the header-word table (bytes 980 … 2047) -/
+
+/-- the reader recovers exactly the rows the writer stored (`to_buffer` → `HeaderwordInfo(buffer=…)`), for any table whose
+entries `struct.pack('<i')` accepts -/
+theorem header_table_roundtrip (h : Header.Bytes) (rows : List Header.TRow)
+    (hr : ∀ r ∈ rows, Header.i32 r.1 ∧ Header.i32 r.2.1 ∧ Header.i32 r.2.2) :
+    Header.getTable (Header.putTable h rows) rows.length = rows := Header.getTable_putTable h rows hr
+
+/-- storing the table changes no word before byte 980 (the fixed fields end at byte 76) and none from byte `980 + 12·rows`
+on — with the 89 rows of the format that is byte 2048, the end of the first half of the block -/
+theorem header_table_leaves_the_rest (h : Header.Bytes) (rows : List Header.TRow) (o : Nat)
+    (ho : o + 4 ≤ 980 ∨ 980 + 12 * rows.length ≤ o) :
+    Header.get32 (Header.putTable h rows) o = Header.get32 h o := Header.putTable_outside h rows o ho
+
+example : Header.rowAt 88 + 12 = 2048 ∧ Header.tableAt + 12 * Header.tableRows = 2048 := by decide
+example : Header.getTable (Header.putTable (fun _ => 0) [(1, 0, 1), (115, -7, 0), (189, 0, 1)]) 3
+    = [(1, 0, 1), (115, -7, 0), (189, 0, 1)] := by decide
+
 /-! ### closure: files derived from a conformant file are conformant (Model/Derived)
 
 `Derived.Conformant` states what the specification asks of the fixed header fields of a 3D file: a valid geometry, the data
